@@ -1,7 +1,7 @@
 package main
 
 const (
-	aEmit = "names and type expressions in emitter harnesses are fixed placeholder atoms (the emitters only concatenate them and test the receiver for emptiness); the quantifier ranges over all flags, counts and tree shapes within the bound"
+	aEmit  = "names and type expressions in emitter harnesses are fixed placeholder atoms (the emitters only concatenate them and test the receiver for emptiness); the quantifier ranges over all flags, counts and tree shapes within the bound"
 	aJudge = "the per-path judge parses the emitted text with go/parser and states the property on the AST (formatting is not observable)"
 )
 
@@ -35,18 +35,22 @@ func init() {
 		What:    "real Config.ParseArgs with -out/-log/-dry/-print, the positional argument and GOFILE symbolic: Input = positional else GOFILE; Output = -out else Input with .gen inserted before the extension (reference: last '.' of the last '/'-element, stated with LastIndex, independent of path.Ext's loop); Log = Output with extension replaced by .log iff -log; flags copied",
 		Bounds:  "paths are ASCII byte vectors (bytes 1..127) of length 0..10, every length case-split, every byte symbolic",
 		Assumes: []string{aEnv, "real flag parsing (flags after the positional argument are ignored by package flag) is outside the claim"}})
+	reg(&HarnessSpec{Prop: "C13", Name: "C18ParseArgs",
+		What:    "for C13's 'relative vs absolute input path': the designated output/log paths are the SAME function of the input path for every spelling of it - the input with .gen inserted before the extension of its last element - so a directory part containing dots (./x.go, ../d/x.go, /a.b/x.go) designates the output next to the input exactly as a dot-free spelling does (see C18ParseArgs)",
+		Bounds:  "as C18ParseArgs",
+		Assumes: []string{aEnv}})
 	reg(&HarnessSpec{Prop: "C18", Name: "C18NoInput", Replay: "none",
 		What: "no positional argument and empty GOFILE: usage and exit status 1", Bounds: "-out symbolic <= 10 bytes", Assumes: []string{aEnv}})
 	reg(&HarnessSpec{Prop: "C18", Name: "C18Generate", Replay: "e2e-cli",
-		What:    "real Generator.Generate/generateContent with symbolic base code, output path, print and dry flags and nondeterministic formatter/write outcomes: on success with -print stdout got exactly the returned bytes + newline (with and without -dry); the file got the same bytes, mode 0644, at the output path; never written under -dry or after a formatter failure",
-		Bounds:  "base code <= 30 bytes (SMT string), no function blocks", Assumes: []string{aEnv}})
+		What:   "real Generator.Generate/generateContent with symbolic base code, output path, print and dry flags and nondeterministic formatter/write outcomes: on success with -print stdout got exactly the returned bytes + newline (with and without -dry); the file got the same bytes, mode 0644, at the output path; never written under -dry or after a formatter failure",
+		Bounds: "base code <= 30 bytes (SMT string), no function blocks", Assumes: []string{aEnv}})
 	reg(&HarnessSpec{Prop: "C18", Name: "C15Run", Replay: "e2e-cli",
-		What:    "real runner.Run with all stages summarised (arbitrary result/error): -log opens exactly <conf.Log> first with O_RDWR|O_CREATE|O_TRUNC and changes neither the later effects nor the error result",
-		Bounds:  "conf strings <= 10 bytes (SMT strings); 0..2 function blocks", Assumes: []string{aEnv, "stage summaries: NewParser, Parse, CreateFunctions, GenerateBaseCode return arbitrary values/errors and have no file-system effect of their own (their real code is covered by the mode-T harnesses and the SSA effect inventory)"}})
+		What:   "real runner.Run with all stages summarised (arbitrary result/error): -log opens exactly <conf.Log> first with O_RDWR|O_CREATE|O_TRUNC and changes neither the later effects nor the error result",
+		Bounds: "conf strings <= 10 bytes (SMT strings); 0..2 function blocks", Assumes: []string{aEnv, "stage summaries: NewParser, Parse, CreateFunctions, GenerateBaseCode return arbitrary values/errors and have no file-system effect of their own (their real code is covered by the mode-T harnesses and the SSA effect inventory)"}})
 	// ---------------------------------------------------------------- C15
 	reg(&HarnessSpec{Prop: "C15", Name: "C15Run", Replay: "e2e-cli",
-		What:    "real runner.Run + Generate with all stages summarised: the only file-system effects are OpenFile(conf.Log) iff conf.Log != \"\" (first) and at most one WriteFile(conf.Output, formatted, 0644), which happens iff !DryRun and every stage and both formatters succeeded and is the last file-system effect; every failure is reported",
-		Bounds:  "conf strings <= 10 bytes; 0..2 function blocks; every subset of stage failures", Assumes: []string{aEnv, "stage summaries as in C18/C15Run"}})
+		What:   "real runner.Run + Generate with all stages summarised: the only file-system effects are OpenFile(conf.Log) iff conf.Log != \"\" (first) and at most one WriteFile(conf.Output, formatted, 0644), which happens iff !DryRun and every stage and both formatters succeeded and is the last file-system effect; every failure is reported",
+		Bounds: "conf strings <= 10 bytes; 0..2 function blocks; every subset of stage failures", Assumes: []string{aEnv, "stage summaries as in C18/C15Run"}})
 	reg(&HarnessSpec{Prop: "C15", Name: "C18Generate", Replay: "e2e-cli",
 		What: "Generate's write discipline (see C18Generate)", Bounds: "base code <= 30 bytes", Assumes: []string{aEnv}})
 
@@ -94,13 +98,20 @@ func init() {
 	aT := "Go types are concrete: the skeleton package (/verif/skeletons) is type-checked natively by go/types on every path; go/types, go/ast, go/token objects are native values called through a reflection bridge; packages.Load is a stub that runs convergen's real ParseFile hook (interpreted) on every file of the skeleton and type-checks the result natively (go list/go/packages loading is environment)"
 	aSlots := "notation slots: each slot line of the skeleton setup file is instantiated from its menu (slots.json), every combination explored; the notation texts themselves are concrete"
 	reg(&HarnessSpec{Prop: "C17", Name: "C17Selection",
-		What:    "real NewParser+Parse (findConvergenEntries, parseMethods) + CreateFunctions on a file with four interfaces (one named Convergen, two sharing a method name), a marked struct and a marked interface in a sibling file, the doc comment of each interface arbitrary from its menu (no comment, :convergen, :convergen + other notation, ordinary text, :convergenX, text mentioning :convergen): selected = declared in the input file and (named Convergen or marked), in name order, each with its full method set; one function per method in order",
-		Bounds:  "skeleton sel; 5x3x3x3 doc-comment combinations", Assumes: []string{aT, aSlots}})
+		What:   "real NewParser+Parse (findConvergenEntries, parseMethods) + CreateFunctions on a file with four interfaces (one named Convergen, two sharing a method name), a marked struct and a marked interface in a sibling file, the doc comment of each interface arbitrary from its menu (no comment, :convergen, :convergen + other notation, ordinary text, :convergenX, text mentioning :convergen): selected = declared in the input file and (named Convergen or marked), in name order, each with its full method set; one function per method in order",
+		Bounds: "skeleton sel; 5x3x3x3 doc-comment combinations", Assumes: []string{aT, aSlots}})
 	reg(&HarnessSpec{Prop: "C17", Name: "C17NoInterface",
 		What: "a file without converter interface is rejected although a sibling file declares a marked interface", Bounds: "skeleton nointf", Assumes: []string{aT, aSlots}})
 	reg(&HarnessSpec{Prop: "C09", Name: "C09Scoping",
-		What:    "real Parse on 2 interfaces x 2 methods with notation slots at both interfaces and at three methods, instantiated with ON/OFF spellings of each of the six toggle families and with :skip/:map/:conv/:literal lists on several methods: effective toggle of every method = interface default overridden by the method's own notations (reference fold written from the README); all other toggles at their defaults; per-method lists contain exactly the method's own notations (append-aliasing across by-value Options copies included); :skip observed through ShouldSkip under the method's effective case rule (a later :case overrides the rule a pattern was compiled under)",
-		Bounds:  "skeleton scope; 7 slots with 2..6 menu entries each x 6 toggle families (28800 combinations)", Assumes: []string{aT, aSlots}})
+		What:   "real Parse on 2 interfaces x 2 methods with notation slots at both interfaces and at three methods, instantiated with ON/OFF spellings of each of the six toggle families and with :skip/:map/:conv/:literal lists on several methods: effective toggle of every method = interface default overridden by the method's own notations (reference fold written from the README); all other toggles at their defaults; per-method lists contain exactly the method's own notations (append-aliasing across by-value Options copies included); :skip observed through ShouldSkip under the method's effective case rule (a later :case overrides the rule a pattern was compiled under)",
+		Bounds: "skeleton scope; 7 slots with 2..6 menu entries each x 6 toggle families (28800 combinations)", Assumes: []string{aT, aSlots}})
+
+	reg(&HarnessSpec{Prop: "C16", Name: "C09Scoping",
+		What:   "for C16's 'element conversions are applied only under :typecast': the effective :typecast of every method is exactly its own interface's default overridden by its own notation - a :typecast written on another method or another converter interface never switches it on (see C09Scoping; family typecast)",
+		Bounds: "as C09Scoping", Assumes: []string{aT, aSlots}})
+	reg(&HarnessSpec{Prop: "C09", Name: "C11WholeFile", Replay: "native",
+		What:   "whole generated text on skeleton whole: an interface-level ':style arg' shapes every function of ITS interface and no function of another converter interface; a method-level :skip reaches its own function only (see C11WholeFile)",
+		Bounds: "skeleton whole", Assumes: []string{aT, aSlots}})
 
 	// ---------------------------------------------------------------- C14 / C08 / C10 / C07 / C01 (mode T)
 	whatBad := "real front half (NewParser, Parse, parseNotationInComments, lookupConverterFunc, lookupManipulatorFunc, resolveConverters, CreateFunctions with the whole assignment builder, FuncToString) on skeleton bad for every (mal)formed notation of a 96-entry menu on a method (missing/invalid arguments, unknown names, wrongly shaped converters and hooks: 0/1 parameters, wrong result shapes, wrong operand types, unexported or unknown imported functions, $n out of range, bad paths, bad regexps, :reverse without :style arg, unknown notations) and misplaced notations on the interface, combined with toggles on both methods: no Go run-time panic on any path; either success with exactly one function per method whose text parses and TYPE-CHECKS inside the skeleton package (native go/types judge), or failure with a message on stderr starting with file:line:column"
@@ -135,8 +146,8 @@ func init() {
 	}
 	for _, pr := range []string{"C04", "C01"} {
 		reg(&HarnessSpec{Prop: pr, Name: "C04Names",
-			What:    "real CreateFunction on skeleton names (identical / unexported / case-differing names, getter only, getter and field, getter with error result, method with parameter, value and pointer receivers, String() on value vs pointer receiver, imported source with unexported members and getters) with all five toggles symbolic: candidate selection (getters first when on, fields only under :match name, accessibility across packages, getter eligibility) and conversion ladder equal the reference; emitted functions type-check",
-			Bounds:  "skeleton names: 3 methods x toggle valuations", Assumes: []string{aT, "a String() reachable only through the pointer receiver may or may not be used (not pinned by the property)"}})
+			What:   "real CreateFunction on skeleton names (identical / unexported / case-differing names, getter only, getter and field, getter with error result, method with parameter, value and pointer receivers, String() on value vs pointer receiver, imported source with unexported members and getters) with all five toggles symbolic: candidate selection (getters first when on, fields only under :match name, accessibility across packages, getter eligibility) and conversion ladder equal the reference; emitted functions type-check",
+			Bounds: "skeleton names: 3 methods x toggle valuations", Assumes: []string{aT, "a String() reachable only through the pointer receiver may or may not be used (not pinned by the property)"}})
 	}
 
 	// ---------------------------------------------------------------- mode G (generated code)
@@ -157,6 +168,10 @@ func init() {
 		What:    "real parser.NewParser incl. its ParseFile hook with the loader, file system and go/parser symbolic: the loader delivers the input file, another file and (when it exists) the output file in arbitrary order with arbitrary contents; whenever a delivered file is the output path the hook withholds it silently and its bytes are never handed to the Go parser; every other file is parsed exactly once, unchanged, the input file with comments; the result of NewParser is decided by the loader's own result and the input file only - independent of whether the output path exists, of its bytes and of the Errors/TypeErrors/IllTyped fields of the loaded package (arbitrary, incl. every ErrorKind); an output path naming the input file is rejected and the input never parsed",
 		Bounds:  "3 files, contents <= 20 bytes (SMT strings), delivery order arbitrary rotation, 0..1 packages",
 		Assumes: []string{aEnv, "assumed, not decided (environment): go list / packages.Load deliver the same package, minus the withheld file, whatever same-package bytes the output path holds"}})
+	reg(&HarnessSpec{Prop: "C15", Name: "C12LoaderHook", Replay: "e2e-regen",
+		What:    "for C15's 'the setup file is never modified': an output path that names the input file itself (same file under any spelling: decided by os.SameFile, symbolic here) makes NewParser fail, so the run ends before any write (see C12LoaderHook for the rest of the contract)",
+		Bounds:  "as C12LoaderHook",
+		Assumes: []string{aEnv}})
 	reg(&HarnessSpec{Prop: "C12", Name: "C15Run", Replay: "e2e-regen", What: "the only write is one whole-file os.WriteFile of the formatted bytes after every stage succeeded (see C15Run)", Bounds: "as C15Run", Assumes: []string{aEnv}})
 	reg(&HarnessSpec{Prop: "C12", Name: "C18Generate", Replay: "e2e-regen", What: "Generate's write discipline (see C18Generate)", Bounds: "as C18Generate", Assumes: []string{aEnv}})
 
@@ -173,11 +188,17 @@ func init() {
 
 	// ---------------------------------------------------------------- C11 remaining clauses
 	reg(&HarnessSpec{Prop: "C11", Name: "C11Directives", Replay: "none",
-		What:    "the real compiled expressions reGoBuildGen / reNotation / reConvergen (symbolic simulation of their regexp/syntax programs) against the documented spellings with symbolic tails: //go:build convergen, // +build convergen, //go:generate ..., // :name args, // :convergen are recognised (hence removed); an ordinary line or block comment whose text starts with a letter (and not with 'go:') is never recognised, whatever it mentions further on (up to 22 bytes); ':convergenX' is no marker",
-		Bounds:  "symbolic ASCII tails of 4..22 bytes, every length case-split", Assumes: []string{aRe}})
+		What:   "the real compiled expressions reGoBuildGen / reNotation / reConvergen (symbolic simulation of their regexp/syntax programs) against the documented spellings with symbolic tails: //go:build convergen, // +build convergen, //go:generate ..., // :name args, // :convergen are recognised (hence removed); an ordinary line or block comment whose text starts with a letter (and not with 'go:') is never recognised, whatever it mentions further on (up to 22 bytes); ':convergenX' is no marker",
+		Bounds: "symbolic ASCII tails of 4..22 bytes, every length case-split", Assumes: []string{aRe}})
 	reg(&HarnessSpec{Prop: "C11", Name: "C11DocForwarding",
-		What:    "real Parse + CreateFunctions on skeleton docs (package comment containing a ':skip' line, commented declarations around the interface, interface/method doc comments from menus mixing text, blank and notation lines, methods without doc comment): every function's doc = the non-notation lines of ITS method's own doc comment in order; notations apply where they stand only; the package comment and the comments of other declarations stay in the syntax tree, the package doc stays attached",
-		Bounds:  "skeleton docs; 4x5x3 doc-comment menus", Assumes: []string{aT, aSlots}})
+		What:   "real Parse + CreateFunctions on skeleton docs (package comment containing a ':skip' line, commented declarations around the interface, interface/method doc comments from menus mixing text, blank and notation lines, methods without doc comment): every function's doc = the non-notation lines of ITS method's own doc comment in order; notations apply where they stand only; the package comment and the comments of other declarations stay in the syntax tree, the package doc stays attached",
+		Bounds: "skeleton docs; 4x5x3 doc-comment menus", Assumes: []string{aT, aSlots}})
+	for _, pr := range []string{"C11", "C03", "C13"} {
+		reg(&HarnessSpec{Prop: pr, Name: "C11WholeFile", Replay: "native",
+			What:    "the REAL runner.Run (dry run: NewParser, Parse, CreateFunctions, GenerateBaseCode incl. marker planting, go/printer run natively on the concrete tree, the marker-to-marker cut, generateContent) on skeleton whole: imports, a go:generate line, declarations with doc / trailing / block / body comments, an ORDINARY interface whose doc and method comments look like notations, and up to three converter interfaces, one of them possibly WITHOUT methods, doc comments from menus (incl. '%' verbs). The text handed to the import optimiser is a Go file; every declaration and comment outside the converter interfaces is present exactly once and byte-identical; directives, build constraint, converter interfaces, their docs and notation lines are absent; every method's function stands where its interface stood, directly under the non-notation lines of its own doc comment, in source order (C03: accepted whatever the mix; C13: no random marker survives)",
+			Bounds:  "skeleton whole; 3x4x3x3x3 menus",
+			Assumes: []string{aT, aSlots, "imports.Process and format.Source are environment (the text handed to imports.Process is the observation)"}})
+	}
 	reg(&HarnessSpec{Prop: "C09", Name: "C11DocForwarding", What: "notations of the package comment or of an enclosing declaration never reach a method without doc comment (see C11DocForwarding)", Bounds: "skeleton docs", Assumes: []string{aT, aSlots}})
 
 	for _, pr := range []string{"C06", "C03", "C01"} {
@@ -188,6 +209,9 @@ func init() {
 
 	for _, pr := range []string{"C02", "C10", "C04"} {
 		reg(&HarnessSpec{Prop: pr, Name: "G:more", What: whatG + " - corpus case more (embedded struct, identical anonymous struct, imported types through an import alias, unexported field with pointer- and value-receiver getters (getters win), :typecast to an imported named type, :stringer on and off, :case:off, :match none with explicit :map/:literal only, two converter interfaces, hooks of all four pointer/value operand shapes in return and arg style with pointer and value destinations)", Bounds: "8 generated functions", Assumes: []string{aG}})
+	}
+	for _, pr := range []string{"C02", "C06", "C05"} {
+		reg(&HarnessSpec{Prop: pr, Name: "G:nested", What: whatG + " - corpus case nested (a nested struct of the SAME type on both sides, which is copied whole unless a notation addresses one of its members: :skip / :literal / :map on a member that is itself a struct, on a struct two levels down, on a deep leaf, by regexp, in return and arg style, by-value operands): the addressed member gets exactly its notation, every other member is copied, nothing else is touched", Bounds: "8 generated functions; pointer depth 3", Assumes: []string{aG}})
 	}
 	reg(&HarnessSpec{Prop: "C13", Name: "G:more", What: "every corpus case is generated twice in fresh processes: exit status, diagnostics and output bytes must be identical (end-to-end validation of determinism on the corpus)", Bounds: "corpus, 2 runs per case", Assumes: []string{aG}})
 }
